@@ -110,6 +110,7 @@ class Prop(object):
             u.append(('multi', {'grp': grp}))
         u.append(('embedded', {}))
         u.append(('attest', {}))
+        u.append(('reparse', {}))
         return u
 
     def run_case(self, check, case):
@@ -316,6 +317,53 @@ class Prop(object):
         self._header_octets_rsa(r, case)
         self._huge_hashed_area(r, case)
         r.samples.append({'embedded': True})
+        return r
+
+    def c_reparse(self, case):
+        """One signature object reads a packet, is used (hash input, verification), then reads another packet: it is then that other signature - the
+        octets fed to the hash are those of the packet read last.  Every ordered pair of a set of packets whose hashed areas differ in every way the
+        other units vary them."""
+        import pgpy
+        r = Res()
+        raw, pub = self._ctx()
+        areas = [('plain', b''), ('flags-unknown-bits', wire.subpacket(27, b'\x43')), ('bool-2', wire.subpacket(7, b'\x02')), ('private-100', wire.subpacket(100, b'private data')),
+                 ('uri-latin1', wire.subpacket(26, 'caf\xe9'.encode('latin-1'))), ('five-octet-length', wire.subpacket(26, b'https://example.org/p', width=5)),
+                 ('critical-notation', wire.subpacket(20, b'\x80\x00\x00\x00\x00\x03\x00\x01a@bx', critical=True)), ('two-flags', wire.subpacket(27, b'\x03') + wire.subpacket(30, b'\x01'))]
+        pkts = [(n, ) + self._make(a) for n, a in areas]
+        for (na, pa, ha), (nb, pb, hb) in itertools.permutations(pkts, 2):
+            if case.get('only') is not None and case['only'] != [na, nb]:
+                continue
+            r.states += 1
+            r.transitions += 2
+            probs = []
+            try:
+                s = pgpy.PGPSignature.from_blob(pa)
+                if bytes(s.hashdata(DOC)) != rsig.hash_input(0x00, 22, 8, ha, {'doc': DOC}) or not pub.verify(DOC, s):
+                    probs.append('the first packet is not read correctly')
+                else:
+                    s.parse(bytearray(pb))
+                    if bytes(s.hashdata(DOC)) != rsig.hash_input(0x00, 22, 8, hb, {'doc': DOC}):
+                        probs.append('after reading the second packet the octets fed to the hash are not those of the second packet')
+                    elif not pub.verify(DOC, s):
+                        probs.append('after reading the second packet the (valid) signature does not verify')
+                    elif bytes(s.__bytearray__()) != pb:
+                        probs.append('after reading the second packet the object serialises other octets')
+                    else:
+                        # a bit of the second packet's hashed area flipped, read into the same object again
+                        body = bytearray(wire.read_packet(pb)['body'])
+                        body[6 + len(hb) - 1] ^= 0x01
+                        try:
+                            s.parse(bytearray(wire.packet(2, body)))
+                            if pub.verify(DOC, s):
+                                probs.append('a packet with a flipped hashed-area bit verifies when read into an object that held the intact one')
+                        except Exception:
+                            pass
+            except Exception as e:
+                probs.append('raises %r' % (e,))
+            r.outcomes['reparse:' + ('ok' if not probs else 'violation')] += 1
+            if probs:
+                r.viol('reparse', {'what': 'reparse', 'kind': probs[0].split(' the ')[0][:20]}, dict(case, only=[na, nb]), 'signature object reading %s then %s: %s' % (na, nb, probs[0]))
+        r.samples.append({'packets': [n for n, _ in areas]})
         return r
 
     def c_attest(self, case):
